@@ -907,3 +907,92 @@ Qed.
 Lemma res_ok_elim {A} (r : res A) (P : A -> Prop) :
   match r with Ok a _ => P a | _ => False end -> exists a, r = Ok a tt /\ P a.
 Proof. destruct r as [a []| |]; [eauto|tauto|tauto]. Qed.
+
+(** ** the begin blocker does not panic *)
+Lemma util_ratio_total cash b r : exists u, util_ratio cash b r = Ok u tt.
+Proof.
+  unfold util_ratio. destruct (b =? 0); [eexists; reflexivity|].
+  destruct (Z.leb_spec (cash + b - r) 0); [eexists; reflexivity|].
+  unfold dquo. destruct (Z.eqb_spec (cash + b - r) 0); [lia|]. cbn. eexists; reflexivity.
+Qed.
+
+Lemma borrow_rate_total m cash b r : exists u, borrow_rate m cash b r = Ok u tt.
+Proof.
+  unfold borrow_rate. destruct (util_ratio_total cash b r) as [u ->]. cbn [bind].
+  destruct (u <=? m_kink m); eexists; reflexivity.
+Qed.
+
+Definition env_wf (e : env) : Prop :=
+  forall d m, mm e d = Some m -> 0 <= m_reserve m <= PREC.
+
+Lemma reserve_share_le i rf : 0 <= i -> 0 <= rf <= PREC ->
+  0 <= dec_trunc_int (dec_mul (dec_of_int i) rf) <= i.
+Proof.
+  intros Hi Hr. unfold dec_trunc_int, dec_mul, dec_of_int.
+  assert (0 <= chop_round (i * PREC * rf)) by (apply chop_round_nonneg; unfold PREC in *; nia).
+  assert (chop_round (i * PREC * rf) <= i * PREC).
+  { rewrite <- (chop_round_exact (i * PREC)) at 2 by (unfold PREC; lia).
+    apply chop_round_mono_nonneg. unfold PREC in *. nia. }
+  split; [apply Z.quot_pos; [assumption|unfold PREC; lia]|].
+  rewrite <- (Z.quot_mul i PREC) at 2 by (unfold PREC; lia).
+  apply Z.quot_le_mono; [reflexivity|assumption].
+Qed.
+
+Lemma interest_nonneg f b : PREC <= f -> 0 <= b -> 0 <= dec_trunc_int (dec_mul f (dec_of_int b)) - b.
+Proof.
+  intros Hf Hb. unfold dec_trunc_int, dec_mul, dec_of_int.
+  assert (b * PREC <= chop_round (f * (b * PREC))).
+  { rewrite <- (chop_round_exact (b * PREC)) at 1 by (unfold PREC; lia).
+    apply chop_round_mono_nonneg. unfold PREC in *. nia. }
+  assert (b <= Z.quot (chop_round (f * (b * PREC))) PREC).
+  { rewrite <- (Z.quot_mul b PREC) at 1 by (unfold PREC; lia). apply Z.quot_le_mono; [reflexivity|assumption]. }
+  lia.
+Qed.
+
+Lemma accrue_no_panic e s d t f : env_wf e -> mm e d <> None -> PREC <= f -> (forall x, 0 <= tbor s x) ->
+  exists s', accrue e s d t f = Ok s' tt /\ forall x, 0 <= tbor s' x.
+Proof.
+  intros Hwf Hm Hf Hb. unfold accrue.
+  destruct (prev s d) as [p|]; [|eexists; split; [reflexivity|exact Hb]].
+  destruct (t - p =? 0); [eexists; split; [reflexivity|exact Hb]|].
+  destruct (tbor s d =? 0); [eexists; split; [reflexivity|exact Hb]|].
+  destruct (mm e d) as [m|] eqn:Em; [|congruence].
+  destruct (borrow_rate_total m (dec_of_int (bal s (hacc e) d)) (dec_of_int (tbor s d)) (dec_of_int (tres s d))) as [apy ->].
+  cbn [bind]. assert (Hf0 : (0 <=? f) = true) by (apply Z.leb_le; unfold PREC in *; lia). rewrite Hf0. cbn [err_unless bind ret].
+  pose proof (interest_nonneg f (tbor s d) Hf (Hb d)) as Hi.
+  set (interest := dec_trunc_int (dec_mul f (dec_of_int (tbor s d))) - tbor s d) in *.
+  destruct ((interest =? 0) && (0 <? apy)); [eexists; split; [reflexivity|exact Hb]|].
+  pose proof (reserve_share_le interest (m_reserve m) Hi (Hwf d m Em)) as Hr.
+  set (rnew := dec_trunc_int (dec_mul (dec_of_int interest) (m_reserve m))) in *.
+  assert (E1 : (0 <=? interest) = true) by (apply Z.leb_le; lia).
+  assert (E2 : (0 <=? interest - rnew) = true) by (apply Z.leb_le; lia).
+  assert (E3 : (0 <=? rnew) = true) by (apply Z.leb_le; lia).
+  rewrite E1, E2, E3. cbn [panic_unless bind ret].
+  eexists. split; [reflexivity|]. intros x. cbn. unfold cadd. rewrite csingle_eq. specialize (Hb x).
+  destruct (Nat.eqb x d); lia.
+Qed.
+
+Lemma accrue_fold_no_panic e t fs l : env_wf e ->
+  (forall d, In d l -> mm e d <> None /\ PREC <= nthZ fs d) ->
+  forall s, (forall x, 0 <= tbor s x) ->
+  exists s', fold_left (fun acc d => s <- acc ;; accrue e s d t (nthZ fs d)) l (ret s) = Ok s' tt.
+Proof.
+  intros Hwf. induction l as [|d l IH]; intros Hl s Hb; cbn [fold_left].
+  - eexists; reflexivity.
+  - destruct (Hl d (or_introl eq_refl)) as [Hm Hf].
+    destruct (accrue_no_panic e s d t (nthZ fs d) Hwf Hm Hf Hb) as (s1 & E & Hb1).
+    cbn [bind ret]. rewrite E. apply IH; [intros x Hx; apply Hl; right; exact Hx|exact Hb1].
+Qed.
+
+Theorem begin_block_no_panic e s t fs : env_wf e ->
+  (forall d, (d < nd e)%nat -> PREC <= nthZ fs d) -> (forall x, 0 <= tbor s x) ->
+  exists s', begin_block e s t fs = Ok s' tt.
+Proof.
+  intros Hwf Hf Hb. unfold begin_block.
+  destruct (accrue_fold_no_panic e t fs
+              (filter (fun d => match mm e d with Some _ => true | None => false end) (seq 0 (nd e))) Hwf) with (s := s)
+    as [s' E]; [|exact Hb|].
+  - intros d Hd. apply filter_In in Hd. destruct Hd as [Hin Hm]. apply in_seq in Hin.
+    split; [destruct (mm e d); [discriminate|discriminate]|apply Hf; lia].
+  - rewrite E. eexists; reflexivity.
+Qed.
